@@ -161,8 +161,20 @@ def header_rule15(ctx):
                     rv = s['rv']
                     n0 = const_int(rv['ops'][rv['fields'].index('n_elements_in_block')]) == 0
                     ho = origin(bw, rv['ops'][rv['fields'].index('block_header_size')])
-                    init = n0 and ('None' in {a[2] for a in ho.atoms if a[0] == 'agg'}) and bool(clr) and all(bw.dominates(c[0], bb) for c in clr)
+                    nothing_pending = ('None' in {a[2] for a in ho.atoms if a[0] == 'agg'}) or \
+                        (ho.consts() == {0} and len(ho.atoms) == 1 and _header_size_is_plain(f))
+                    init = n0 and nothing_pending and bool(clr) and all(bw.dominates(c[0], bb) for c in clr)
         ctx.ob('HEADER', 'builder/starts-empty', init, short_loc(bw.span), 'writer starts with count 0, no pending block header and a cleared buffer: %s' % init)
+
+
+def _header_size_is_plain(f):
+    """the pending-block marker is a plain integer (0 = nothing pending) instead of Option<NonZeroUsize>"""
+    a = f.adts.get(P + 'WriterInner') or {}
+    for v in a.get('variants', [])[:1]:
+        for fd in v.get('fields', []):
+            if fd.get('name') == 'block_header_size':
+                return fd.get('ty') in ('usize', 'u32', 'u64')
+    return False
 
 
 def typestate(ctx):
@@ -214,6 +226,13 @@ def typestate(ctx):
                 and te[1] is not None and all_paths_err(fl, te[1])
             # only when a block is pending
             pend = any('Some' in names and 'block_header_size' in oo.fields for names, adt, oo, d_, oth in option_guards(fl, vw[0][0]))
+            if not pend and _header_size_is_plain(f):
+                # `match self.inner.block_header_size { 0 => nothing pending, size => write }`
+                for d_, si_, taken_ in dominating_switches(fl, vw[0][0]):
+                    if si_.get('kind') not in ('enum', 'bool') and taken_[0] == 'not' and 0 in taken_[1]:
+                        so_ = origin(fl, si_['op'])
+                        if 'block_header_size' in so_.fields and not so_.has_arith():
+                            pend = True
             sinkw = 'writer' in origin(fl, vw[0][1]['args'][0]).fields
             ok = after and pend and sinkw
             det = 'pending-block marker and buffer cleared only after the sink write succeeded: %s; written only when a block is pending: %s' % (after, pend)
